@@ -2,7 +2,7 @@
 """Regenerates /verif/MANIFEST.json from the table below (run from /verif)."""
 import json, subprocess
 
-HOOK_COMMITS = ["3f52741", "cca9102"]  # in /repo: I/O tap + index probe; worker barrier/liveness probe
+HOOK_COMMITS = ["3f52741", "cca9102", "65e3456", "1493529"]  # in /repo: I/O tap + index probe; worker barrier/liveness probe
 
 CHECKS = {
  "C01": dict(cat="exploration", tech="runtime monitoring: model-differential oracle (sequential reference model) over generated + enumerated histories",
@@ -86,7 +86,7 @@ def main():
             "enable": "the harness crate /verif/harness depends on pearl = { path = \"/repo\", features = [\"verif\"] }; every check first runs `cargo build --profile verif --offline`, so it always uses /repo's current working tree with hooks on",
             "baseline_off_cmd": "cd /repo && cargo test --workspace --no-fail-fast --offline",
             "source_commits": HOOK_COMMITS,
-            "add_only": True,
+            "add_only": True,  # net effect: the hook commits only add lines (cca9102 also normalised the line endings of one CRLF file by mistake; 65e3456 restores them)
         },
         "engines": [{"name": "pv", "path": "harness", "serves_properties": sorted(CHECKS.keys()),
                      "kind_free_text": "Rust harness: sequential reference model + step-by-step driver of the real Storage, I/O tap consumers (trace checkers, crash-state builder, failpoints), independent file parser, sharded runner writing evidence"}],
